@@ -348,24 +348,24 @@ class SpecMixin:
         return Sc("bool", z3.BoolVal(isinstance(a, Ref) and isinstance(b, Ref) and a.ref == b.ref))
 
     def spec_unchanged(self, node, st):
-        """unchanged(a): contents and length equal to those at function entry."""
-        now = self.eval(node.args[0], st)
+        """unchanged(e): the object that e denoted at function entry has the same contents and length now
+        (whatever the name is bound to now)."""
         tmp = st.old.fork()
         tmp.pc = st.pc
         tmp.guards = st.guards
         then = self.eval(node.args[0], tmp)
-        if not (isinstance(now, Ref) and isinstance(then, Ref)):
+        if not isinstance(then, Ref):
             raise VCError("unchanged() of non-object")
-        o1, o0 = st.obj(now), st.old.obj(then)
+        o1, o0 = st.obj(then), st.old.obj(then)
         if isinstance(o1, HArr):
             k = fresh("k", INT)
-            return Sc("bool", z3.And(now.ref == then.ref, o1.n == o0.n,
-                                     qall([k], z3.Implies(z3.And(k >= 0, k < o0.n), z3.Select(o1.a, k) == z3.Select(o0.a, k)))))
+            return Sc("bool", z3.And(o1.n == o0.n,
+                                     z3.ForAll([k], z3.Implies(z3.And(k >= 0, k < o0.n), z3.Select(o1.a, k) == z3.Select(o0.a, k)))))
         if isinstance(o1, HDict):
             return Sc("bool", z3.And(o1.dom == o0.dom, o1.val == o0.val, o1.size == o0.size))
         if isinstance(o1, HListTup):
             k = fresh("k", INT)
-            return Sc("bool", z3.And(now.ref == then.ref, o1.n == o0.n, z3.ForAll([k], z3.Implies(z3.And(k >= 0, k < o0.n),
+            return Sc("bool", z3.And(o1.n == o0.n, z3.ForAll([k], z3.Implies(z3.And(k >= 0, k < o0.n),
                       z3.And(*[z3.Select(c1, k) == z3.Select(c0, k) for c1, c0 in zip(o1.cols, o0.cols)])))))
         raise VCError("unchanged() of %r" % o1)
 
